@@ -72,4 +72,33 @@ def loopHeaderAbort (failAt : Nat) (n : Nat) (s : St := {}) : Nat × St :=
               -- free(other_norm); free(name_norm); result = CIF_OK → error callback(CIF_DUP_ITEMNAME) refuses → return
               (DUP_ITEMNAME, freeHeader (done ++ [(nd, some str)]) (free nn (free o s5)))
 
+-- ---------------------------------------------------------------------------------------------------------------
+-- cif_container_get_all_loops (container.c, after /repo 1cc209d / 93a61e2): per row of the query a list node (the loop
+-- object) and — unless the category is SQL NULL — a copy of the category (GET_COLUMN_STRING); then the array of loop
+-- pointers.  A failed node or array request: FAIL(soft); a failed category copy: the `hard` handler (DROP_STMT), which falls
+-- into `soft`: `free(head->loop.category); free(head);` for every node — the node whose category could not be copied is
+-- already linked, with category NULL.  The list has the same form as the header list above (`freeHeader`).
+
+/-- the SQLITE_ROW iterations; `cats` = per remaining loop whether it has a category -/
+def allLoopsRows (failAt : Nat) : List Bool → List (Nat × Option Nat) → St → Bool × List (Nat × Option Nat) × St
+  | [], done, s => (true, done, s)
+  | c :: rest, done, s =>
+    match alloc failAt s with                                     -- malloc(sizeof(struct loop_el))
+    | (none, s1) => (false, done, s1)
+    | (some nd, s1) =>
+      if c then
+        match alloc failAt s1 with                                -- GET_COLUMN_STRING(…, temp->category, hard)
+        | (none, s2) => (false, done ++ [(nd, none)], s2)
+        | (some cat, s2) => allLoopsRows failAt rest (done ++ [(nd, some cat)]) s2
+      else allLoopsRows failAt rest (done ++ [(nd, none)]) s1
+
+/-- returns (result code, what the caller owns: the array and the loop objects with their categories, final state) -/
+def getAllLoops (failAt : Nat) (cats : List Bool) (s : St := {}) : Nat × Option (Nat × List (Nat × Option Nat)) × St :=
+  match allLoopsRows failAt cats [] s with
+  | (false, done, s1) => (MEMORY_ERROR, none, freeHeader done s1)
+  | (true, done, s1) =>
+    match alloc failAt s1 with                                    -- malloc((loop_count + 1) * sizeof(cif_loop_tp *))
+    | (none, s2) => (MEMORY_ERROR, none, freeHeader done s2)
+    | (some arr, s2) => (OK, some (arr, done), s2)
+
 end CifModel.Model.Ladder
